@@ -507,6 +507,7 @@ func runC04Race(t *testing.T, id, target string, order []string) {
 	defer r.close()
 	r.w.caseID = id
 	r.w.noMonitors = true // two syncs overlap; judged below per goroutine
+	r.w.overlapView = true
 	s := r.w.sim
 	pgvr := sc.parentInfo().GVR()
 	// second parent with the same selector and the same desired child
